@@ -8,6 +8,8 @@ from pathlib import Path
 
 VERIF = Path(__file__).resolve().parent.parent
 NOTES = {
+    "C10-r5change1": "missed at first (the view and `use` disagree only when the ether gauge EQUALS the price): every numeric field of every entity of a harvested state is now set to the component's own thresholds (its numeric configuration values, 0, 1), one below and one above, with the cooldown ready; valid => `use` is not rejected",
+    "C13-r5change1": "missed at first: the share report was read once, at the end; it is now also read twice in the middle of the run and its final shares must be those of a report read only once",
     "C04-r5change1": "missed at first: no plan had a hundred commands; a chain of long plans (104 -> 112 -> 95 -> 131 commands) is now run per job (two jobs in the quick tier)",
     "C04-r5change2": "missed at first (the state is reached only by one windbreaker skill cast with fewer than its three charges): every numeric / boolean field of every recorded entity is now moved away from its recorded value and must survive Checkpoint.restore().save() (simlib.perturbed_roundtrip; also in check_C01), and every checkpoint a result carries must restore to itself",
     "C06-r5change1": "missed at first: operation engines work on a restored copy of the store and never show a clock shared between stores; per job two SimulationRuntimes and a new engine are now advanced in one process and every clock must be the sum of the elapses dispatched to it",
